@@ -10,10 +10,11 @@ for stream delivery, so the model keeps
   * `data`: every chunk pushed since the last `clear`, trimmed exactly as `insert` trims it
     (read index in ordered mode, `recvd.replace(..)` duplicates in unordered mode); only used to
     look bytes up;
-  * `cov`: the set of stream offsets the implementation still buffers. `insert`, `clear`, the switch to
-    unordered mode (`defragment` preserves coverage) and unordered reads change it deterministically;
-    an ordered read may additionally drop any buffered offsets *below* the new read index (lazy
-    popping of useless chunks) — that part is taken from the observation and validated.
+  * `cov`: the set of *live* stream offsets the implementation buffers. In ordered mode offsets below
+    the read index are dead (`read` pops such chunks lazily, `defragment` trims them since it starts at
+    `bytes_read` in ordered mode) and are not part of the state; in unordered mode every buffered
+    offset is live. `insert`, `read`, `clear` and the switch to unordered mode change `cov`
+    deterministically (`defragment` preserves the live coverage).
 `read` receives the chunk boundaries the implementation chose (`Obs`) and checks they are allowed:
 start at the read index (ordered), at most `max_length` long, only buffered offsets; it predicts the
 bytes. `invalid` = the observed choice is not allowed by this specification.
@@ -75,6 +76,8 @@ def finishInsert (s : Asm) (off : Nat) (bytes : Bytes) (obsTooMany : Bool) : Asm
 def insert (s : Asm) (off : Nat) (bytes : Bytes) (alloc : Nat) (obsTooMany : Bool) : Asm × InsertOut :=
   if bytes.length > alloc then (s, .panic)                       -- `debug_assert!`
   else if off + bytes.length ≥ 2^64 then (s, .panic)             -- `offset + bytes.len() as u64`
+  else if bytes.isEmpty then                                      -- `if bytes.is_empty() { return Ok(()) }`
+    ({ s with end_ := Nat.max s.end_ (off + bytes.length) }, if obsTooMany then .invalid else .ok)
   else
     if s.unordered then
       match dupLoop (RangeSet.replace s.recvd off (off + bytes.length)).1
@@ -89,14 +92,20 @@ def insert (s : Asm) (off : Nat) (bytes : Bytes) (alloc : Nat) (obsTooMany : Boo
             (bytes.drop (s.bytesRead - off)) obsTooMany
     else finishInsert { s with end_ := Nat.max s.end_ (off + bytes.length) } off bytes obsTooMany
 
+/-- `s ∩ [r, ∞)` -/
+def clipFrom (s : RS) (r : Nat) : RS :=
+  s.filterMap (fun p => if p.2 > r then some (Nat.max p.1 r, p.2) else none)
+
 /-- `ensure_ordering(ordered)`; `false` = `Err(IllegalOrderedRead)`.
-    Entering unordered mode defragments (coverage unchanged) and records `0..bytes_read` plus every
-    buffered chunk as received. -/
+    Entering unordered mode defragments — in ordered mode `defragment` starts at `bytes_read`, so
+    nothing below the read index survives — and records `0..bytes_read` plus every buffered chunk as
+    received. -/
 def ensureOrdering (s : Asm) (ordered : Bool) : Asm × Bool :=
   if ordered && s.unordered then (s, false)
   else if !ordered && !s.unordered then
     ({ s with unordered := true,
-              recvd := s.cov.foldl (fun acc p => (RangeSet.insert acc p.1 p.2).1)
+              cov := clipFrom s.cov s.bytesRead,
+              recvd := (clipFrom s.cov s.bytesRead).foldl (fun acc p => (RangeSet.insert acc p.1 p.2).1)
                          (RangeSet.insert [] 0 s.bytesRead).1 }, true)
   else (s, true)
 
@@ -127,20 +136,6 @@ def readBytes (d : List (Nat × Bytes)) (off : Nat) : Nat → Option Bytes
 /-- `a..b` lies inside one run of `s` (`a ∈ s` when `a = b`) -/
 def covers (s : RS) (a b : Nat) : Bool := s.any (fun p => p.1 ≤ a && b ≤ p.2 && a < p.2)
 
-/-- sorted, non-empty, non-adjacent runs -/
-def wfb : RS → Bool
-  | [] => true
-  | [(a, b)] => a < b
-  | (a, b) :: (c, d) :: t => a < b && b < c && wfb ((c, d) :: t)
-
-/-- `s ∩ [r, ∞)` -/
-def clipFrom (s : RS) (r : Nat) : RS :=
-  s.filterMap (fun p => if p.2 > r then some (Nat.max p.1 r, p.2) else none)
-
-/-- `s ∩ [0, r)` -/
-def clipBelow (s : RS) (r : Nat) : RS :=
-  s.filterMap (fun p => if p.1 < r then some (p.1, Nat.min p.2 r) else none)
-
 /-- `s \ [a, b)` -/
 def removeRange : RS → Nat → Nat → RS
   | [], _, _ => []
@@ -150,21 +145,13 @@ def removeRange : RS → Nat → Nat → RS
       ++ (if Nat.max p b < q then [(Nat.max p b, q)] else [])
       ++ removeRange t a b
 
-/-- after an ordered read that left the read index at `r`: the observed coverage `c'` keeps exactly
-    the offsets `≥ r` of `c` and some of those below -/
-def staleOk (c c' : RS) (r : Nat) : Bool :=
-  wfb c' && clipFrom c' r == clipFrom c r
-    && (clipBelow c' r).all (fun q => c.any (fun p => p.1 ≤ q.1 && q.2 ≤ p.2))
-
-/-- `read(max_length, ordered)` with the observed result and (ordered mode) the observed coverage -/
-def read (s : Asm) (max : Nat) (ordered : Bool) (obs : Obs) (obsCov : RS) : Asm × ReadOut :=
+/-- `read(max_length, ordered)` with the observed result -/
+def read (s : Asm) (max : Nat) (ordered : Bool) (obs : Obs) : Asm × ReadOut :=
   match obs with
   | .none =>
     if ordered then
       -- `chunk.offset > self.bytes_read` for the chunk with the least offset (or no chunk at all)
-      if covers s.cov s.bytesRead s.bytesRead then (s, .invalid)
-      else if staleOk s.cov obsCov s.bytesRead then ({ s with cov := obsCov }, .none)
-      else (s, .invalid)
+      if covers s.cov s.bytesRead s.bytesRead then (s, .invalid) else (s, .none)
     else
       if s.cov.isEmpty then (s, .none) else (s, .invalid)
   | .chunk off len =>
@@ -174,9 +161,9 @@ def read (s : Asm) (max : Nat) (ordered : Bool) (obs : Obs) (obsCov : RS) : Asm 
       | some bytes =>
         if ordered then
           if off ≠ s.bytesRead then (s, .invalid)
-          else if staleOk s.cov obsCov (s.bytesRead + len) then
-            ({ s with cov := obsCov, bytesRead := s.bytesRead + len }, .chunk off bytes)
-          else (s, .invalid)
+          else
+            ({ s with cov := clipFrom s.cov (s.bytesRead + len), bytesRead := s.bytesRead + len },
+              .chunk off bytes)
         else
           ({ s with cov := removeRange s.cov off (off + len), bytesRead := s.bytesRead + len },
             .chunk off bytes)
